@@ -123,6 +123,8 @@ def run(ctx):
                 ctx.violation(f"{route}/cycle/g2-ne-g3", "the second and third generation documents differ", dict(wit, first_diff=first_diff(g2.value, g3.value)))
         if i < 2:
             ctx.sample({"doc": i, "style": style, "G1_sha256": mine.get(f"{i}/xml"), "features": fs[:8]})
+    # ---- the documents bundled with the repository (fixed date assigned through the public attribute) ---------------------
+    bundled(ctx)
     # ---- cross-process determinism -----------------------------------------------------------------------------------
     for hs in ("1", "4242"):
         env = dict(os.environ, PYTHONHASHSEED=hs)
@@ -136,6 +138,48 @@ def run(ctx):
             ctx.count("crossprocess.documents")
             if other.get(k) != v:
                 ctx.violation(f"{k.split('/')[1]}/nondeterministic/cross-process", f"document {k}: digest differs under PYTHONHASHSEED={hs}", {"doc": k, "hashseed": hs})
+
+
+def bundled(ctx):
+    from vmon import core
+    base = os.path.join(core.REPO, "tests", "test_data")
+    docs_ = [("test_xtce.xml", "xtce"), ("test_xtce_default_namespace.xml", None), ("test_xtce_no_namespace.xml", None),
+             ("jpss/jpss1_geolocation_xtce_v1.xml", "xtce"), ("jpss/contrived_inheritance_structure.xml", "xtce"),
+             ("suda/suda_combined_science_definition.xml", "xtce"), ("ctim/ctim_xtce_v1.xml", "xtce"),
+             ("idex/idex_combined_science_definition.xml", "xtce")]
+    import warnings
+    for i, (rel, prefix) in enumerate(docs_):
+        if not ctx.mine(i + 2):
+            continue
+        with open(os.path.join(base, rel), "rb") as f:
+            G = f.read()
+        with warnings.catch_warnings():
+            warnings.simplefilter("ignore")
+            st = monitored(load_definition, G, prefix)
+            if st.exc is not None:
+                ctx.violation(f"bundled/load/{type(st.exc).__name__}", f"{rel}: {st.exc!r}", {"document": rel})
+                continue
+            D = st.value
+            D.date = "2024-01-01T00:00:00"
+            with c11.Immut(ctx, D, f"to_xml (bundled {rel})"):
+                w1, w2 = monitored(definition_to_bytes, D), monitored(definition_to_bytes, D)
+            ctx.count("evaluations")
+            ctx.count("bundled.documents")
+            wit = {"document": rel}
+            if w1.exc is not None:
+                ctx.violation(f"bundled/write/{type(w1.exc).__name__}", f"{rel}: {w1.exc!r}", wit)
+                continue
+            if w2.exc is not None or w1.value != w2.value:
+                ctx.violation("bundled/nondeterministic/same-process", f"{rel}: two writes differ", wit)
+            l1 = monitored(load_definition, w1.value, prefix)
+            g2 = monitored(definition_to_bytes, l1.value) if l1.exc is None else l1
+            l2 = monitored(load_definition, g2.value, prefix) if g2.exc is None else g2
+            g3 = monitored(definition_to_bytes, l2.value) if l2.exc is None else l2
+            if g3.exc is not None:
+                ctx.violation(f"bundled/cycle/{type(g3.exc).__name__}", f"{rel}: cycle failed: {g3.exc!r}", wit)
+            elif g2.value != g3.value:
+                ctx.violation("bundled/cycle/g2-ne-g3", f"{rel}: second and third generation differ", dict(wit, first_diff=first_diff(g2.value, g3.value)))
+            ctx.sig("bundled", rel)
 
 
 def first_diff(a, b):
